@@ -61,6 +61,13 @@ def kani_cmd(prop, names, target, export, extra=""):
             % (feat, target, hs, JOBS, export, extra))
 
 
+def unwindset(h):
+    """per-loop bounds passed straight to CBMC (must come last on the command line)"""
+    d = {"memcmp.0": h.memcmp}
+    d.update(h.extra_unwind)
+    return "--cbmc-args --unwindset " + ",".join("%s:%d" % kv for kv in sorted(d.items()))
+
+
 # ---------------------------------------------------------------- solve ----
 
 def run_playback(prop, hs, tag):
@@ -74,8 +81,8 @@ def run_playback(prop, hs, tag):
         outlog = os.path.join(WORK, "%s-%s-%s.out" % (prop, tag, h.name))
         feat = prop.lower()
         cmd = ("cargo kani --features %s --target-dir %s --harness gen::proofs_%s::%s --exact --output-format terse "
-               "-Z unstable-options -Z stubbing --harness-timeout %ds -Z concrete-playback --concrete-playback=print"
-               % (feat, target, feat, h.name, 2 * h.timeout))
+               "-Z unstable-options -Z stubbing --harness-timeout %ds -Z concrete-playback --concrete-playback=print %s"
+               % (feat, target, feat, h.name, 2 * h.timeout, unwindset(h)))
         sh(cmd, cwd=HARNESS, timeout=2 * h.timeout + 600, out=outlog)
         txt = open(outlog, errors="replace").read()
         return h.name, parse_playback(txt).get(h.name, [])
@@ -95,16 +102,14 @@ def run_kani(prop, hs, tag, playback=False):
     # group by timeout so --harness-timeout is tight for cheap harnesses
     groups = {}
     for h in hs:
-        groups.setdefault(h.timeout, []).append(h)
-    for tmo, grp in sorted(groups.items()):
+        groups.setdefault((h.timeout, unwindset(h)), []).append(h)
+    for gi, ((tmo, uws), grp) in enumerate(sorted(groups.items())):
         names = [h.name for h in grp]
-        export = os.path.join(WORK, "%s-%s-%d.json" % (prop, tag, tmo))
-        outlog = os.path.join(WORK, "%s-%s-%d.out" % (prop, tag, tmo))
+        export = os.path.join(WORK, "%s-%s-%d-%d.json" % (prop, tag, tmo, gi))
+        outlog = os.path.join(WORK, "%s-%s-%d-%d.out" % (prop, tag, tmo, gi))
         if os.path.exists(export):
             os.remove(export)
-        extra = "--harness-timeout %ds" % tmo
-        if playback:
-            extra += " -Z concrete-playback --concrete-playback=print"
+        extra = "--harness-timeout %ds %s" % (tmo, uws)
         waves = (len(names) + JOBS - 1) // JOBS
         overall = 600 + waves * (tmo + 60)
         rc, secs = sh(kani_cmd(prop, names, target, export, extra), cwd=HARNESS, timeout=overall, out=outlog)
@@ -517,7 +522,7 @@ def write_evidence(prop, tier, seed, hs, res, cls, violations, known_hits, uncon
     for h in hs:
         r = res.get(h.name, {})
         c = cls[h.name]
-        st = r.get("stats", {})
+        st = r.get("stats") or {}
         solver_s += st.get("runtime_solver_s", 0.0) or 0.0
         symex_s += st.get("runtime_symex_s", 0.0) or 0.0
         vccs += st.get("vccs_remaining", 0) or 0
